@@ -9,11 +9,17 @@ def member(desc, tier, seed):
     return identitychecks.sup_member(desc, tier, seed)
 
 
+def same_name(payload, tier, seed):
+    return identitychecks.sup_same_name_member(payload, tier, seed)
+
+
 def run(tier='quick', seed=0):
     members = corpus(FAMILIES, tier)
     results = harness.run_pool('bounded.drivers.C20', 'member', members, tier, seed)
+    results += harness.run_pool('bounded.drivers.C20', 'same_name',
+                                [(k, o) for k in ('dv', 'dv-discrete', 'metric') for o in ('listed', 'reversed')], tier, seed)
     return harness.aggregate(
         results,
         rule='one evaluation = one clause on one (source graph, source architecture, supplementary choice) or rejected configuration; non-trivial = distinct such case',
-        bound='; '.join(BOUND_TEXT[f] for f in FAMILIES) + '; per source graph one supplementary graph with an option mapping for every source choice (None case for conditional ones), an existence mapping over two nodes, a nested supplementary choice; all source architectures; rejected: duplicate mapping, unmapped choice, missing None, non-final source',
+        bound='; '.join(BOUND_TEXT[f] for f in FAMILIES) + '; per source graph one supplementary graph with an option mapping for every source choice (None case for conditional ones), an existence mapping over two nodes, a nested supplementary choice; all source architectures; rejected: duplicate mapping, unmapped choice, missing None, non-final source; 6 hand-built sources whose option nodes share a display name (design-variable / metric nodes that differ in bounds, options, reference)',
         assumptions=['str_context is injective on the corpus node names'])
